@@ -149,5 +149,6 @@ impl From<Appointment> for msgs::Appointment {
 ///
 /// This is based on the [encrypted_blob](Appointment::encrypted_blob) size and the slot size that was defined by the [Gatekeeper](crate::gatekeeper::Gatekeeper).
 pub fn compute_appointment_slots(blob_size: usize, blob_max_size: usize) -> u32 {
-    (blob_size as f32 / blob_max_size as f32).ceil() as u32
+    // An appointment always fills, at least, one slot (even if its blob is empty).
+    ((blob_size as f32 / blob_max_size as f32).ceil() as u32).max(1)
 }
